@@ -477,3 +477,13 @@ def r9(ctx):
 
 
 RULES.append(r9)
+
+
+@rule("R10", doc="`eq` decides by composing slot maps and looking keys up by binary search: every SlotMap the library builds is sorted by key with unique keys (C19.Q1 representation invariant, closed writer set) and inverse / compose are built from insertions (C19.Q3) — a map out of key order silently loses entries, `a.m ; b.m⁻¹` degenerates to the identity and `Group::contains` answers true for two invocations nobody equated", once=True)
+def r10(ctx):
+    from . import c19
+    c19.q1(ctx)
+    c19.q3(ctx)
+
+
+RULES.append(r10)
